@@ -57,6 +57,11 @@ def cases(tier, seed):
                     continue
                 out.append(dict(kind="policy", policy="neuopt", cfg=dict(env="tsp_kopt", n=n, k=k), B=8, s=rnd.randrange(10**6), steps=12 if q else 40))
             out.append(dict(kind="policy", policy="n2s", cfg=dict(env="pdp_ruin_repair", n=n + (n % 2)), B=8, s=rnd.randrange(10**6), steps=12 if q else 40))
+    # initial tours: the generators' own "random" or "greedy" (nearest-neighbour) construction, one third greedy
+    rnd2 = random.Random(seed * 59 + 10)
+    for c in out:
+        if rnd2.random() < 0.34:
+            c["cfg"]["init"] = "greedy"
     return out
 
 
